@@ -366,6 +366,25 @@ theorem C15_loop_no_prune_unless_configured_or_requested (es : List Ev) (s : Loo
     · exact hnp
     · exact ih _ hs' (fun x hx => hno x (by simp [hx])) p hp
 
+/-- **No request is left pending once the table is initialized**: in every state the loop reaches
+    from its initial state, the external-request flag is clear whenever the table counts as
+    initialized — a request is either waiting for the initialization or has been served -/
+theorem C15_loop_no_request_pending_when_initialized (pe : Bool) (es : List Ev) :
+    ¬ ((run Gen.loopStep pe Gen.loopInit es).1.tableInitialized = true ∧
+       (run Gen.loopStep pe Gen.loopInit es).1.externalPrune = true) := by
+  suffices H : ∀ (es : List Ev) (s : LoopState), ¬ (s.tableInitialized = true ∧ s.externalPrune = true) →
+      ¬ ((run Gen.loopStep pe s es).1.tableInitialized = true ∧ (run Gen.loopStep pe s es).1.externalPrune = true) by
+    exact H es Gen.loopInit (by rw [C15_loop_initial_state.1]; intro h; cases h.1)
+  intro es
+  induction es with
+  | nil => intro s hs; simpa [run] using hs
+  | cons e es ih =>
+    intro s _
+    rw [run_cons]
+    refine ih _ ?_
+    rintro ⟨h1, h2⟩
+    exact ((C15_loop_step_pending_request_iff pe s e.trig).1 h2).2 ((C15_loop_step_initialized_iff pe s e.trig).1 h1)
+
 /-- the facts around the translated logic that the statements above rely on — the snapshot is
     taken after the trigger, `r.prune` gets that snapshot and hands `Operations.Prune` the
     sequence `Table.All(snapshot)`, i.e. the table's COMPLETE contents as of that snapshot; no
